@@ -955,6 +955,23 @@ static std::string run_case(const std::string &line)
                 else if (!q_is_lower(l, false))
                     o.fail("cholesky:shape", "L is not lower triangular");
             }
+        } else if (op == "qr") {
+            // not modelled (symbolic square roots in general): oracle only, on inputs whose
+            // Gram-Schmidt norms are rational
+            DenseMatrix A = tk.matrix();
+            DenseMatrix Q(A.nrows(), A.ncols()), R(A.ncols(), A.ncols());
+            QR(A, Q, R);
+            o.field(show_m(Q));
+            o.field(show_m(R));
+            QM a, q, r;
+            if (to_q(A, a) && to_q(Q, q) && to_q(R, r)) {
+                if (!(q_mul(q, r) == a))
+                    o.fail("qr:wrong", "Q * R differs from the input");
+                else if (!(q_mul(q_transpose(q), q) == q_eye(a.c)))
+                    o.fail("qr:not-orthonormal", "Q^T * Q is not the identity");
+                else if (!q_is_upper(r))
+                    o.fail("qr:shape", "R is not upper triangular");
+            }
         } else if (op == "det_bareis" || op == "det_berkowitz") {
             DenseMatrix A = tk.matrix();
             RCP<const Basic> d = op == "det_bareis" ? det_bareis(A) : det_berkowitz(A);
